@@ -1597,6 +1597,9 @@ impl ContinuityStore {
                 Err(_) => break,
             }
 
+            if tail_bytes >= MAX_TAIL_BYTES {
+                break;
+            }
             tail_bytes = (tail_bytes * 2).min(MAX_TAIL_BYTES);
         }
 
@@ -1769,6 +1772,7 @@ impl ContinuityStore {
 
         let mut tail_bytes = INITIAL_TAIL_BYTES;
         let mut scanned_sidecar = false;
+        let mut tail_complete = false;
         while tail_bytes <= MAX_TAIL_BYTES {
             match self
                 .stream_cache
@@ -1776,6 +1780,7 @@ impl ContinuityStore {
             {
                 Ok(Some(tail)) => {
                     scanned_sidecar = true;
+                    tail_complete = tail.complete;
                     for event in tail.events.iter().rev() {
                         let EventKind::ContinuityProviderCursorUpdated {
                             provider,
@@ -1831,10 +1836,15 @@ impl ContinuityStore {
                 Err(_) => break,
             }
 
+            if tail_bytes >= MAX_TAIL_BYTES {
+                break;
+            }
             tail_bytes = (tail_bytes * 2).min(MAX_TAIL_BYTES);
         }
 
-        if !scanned_sidecar {
+        // The bounded tail window may not reach the start of a long thread; older cursors are
+        // then only visible to a full replay (entries already found are newer and are kept).
+        if !scanned_sidecar || (!tail_complete && by_key.len() < MAX_KEYS) {
             let events = self
                 .replay_events(thread_id)
                 .map_err(|err| format!("continuity replay failed: {err}"))?;
@@ -1981,6 +1991,9 @@ impl ContinuityStore {
                 }
                 Ok(None) => break,
                 Err(_) => break,
+            }
+            if tail_bytes >= MAX_TAIL_BYTES {
+                break;
             }
             tail_bytes = (tail_bytes * 2).min(MAX_TAIL_BYTES);
         }
@@ -2151,6 +2164,9 @@ impl ContinuityStore {
                 Err(_) => break,
             }
 
+            if tail_bytes >= MAX_TAIL_BYTES {
+                break;
+            }
             tail_bytes = (tail_bytes * 2).min(MAX_TAIL_BYTES);
         }
 
